@@ -1,14 +1,2061 @@
-//! C18 — not implemented yet (stub).
-use crate::report::{Cfg, Meta, Report};
+//! C18 — standard-library memory, stack and collection utilities keep their contracts.
+//!
+//! (a) `std::sys::truncate_stack` for every depth 16..=80, (b) `std::mem::{memcopy, pipe_*}` against a
+//! word-level memory model, (c) `std::collections::{smt, mmr}` in lock-step with miden-crypto's native
+//! `Smt` / `Mmr`. Contracts are the header comments of the `.masm` files and
+//! `docs/src/user_docs/stdlib/*.md`; the oracle for (c) is the native data structure.
 
-pub fn meta() -> Meta {
-    Meta { level: "exploration", rule: "stub".into(), assumptions: vec![] }
+use crate::case::{err_kind, exec_host, AsmOutcome, Case, ExecOutcome};
+use crate::host::QuietHost;
+use crate::report::{merge_all, truncate, Cfg, Meta, Report};
+use crate::util::{par_map, rng_for, PanicInfo, Rng8, P};
+use processor::{DefaultHost, ExecutionOptions, ExecutionTrace, MemAdviceProvider, Program};
+use rand::Rng;
+use serde_json::{json, Value};
+use std::collections::{BTreeMap, BTreeSet, HashMap};
+use vm_core::crypto::hash::{Rpo256, RpoDigest};
+use vm_core::crypto::merkle::{MerkleStore, Mmr, Smt};
+use vm_core::{Felt, Word};
+
+type W = [u64; 4];
+const TWO32: u64 = 1 << 32;
+
+// SMALL HELPERS
+// ================================================================================================
+
+fn sm64(seed: u64, i: u64) -> u64 {
+    let mut z = seed
+        .wrapping_mul(0x9E37_79B9_7F4A_7C15)
+        .wrapping_add(i.wrapping_mul(0xD1B5_4A32_D192_ED03))
+        .wrapping_add(0x2545_F491_4F6C_DD1D);
+    z = (z ^ (z >> 30)).wrapping_mul(0xBF58_476D_1CE4_E5B9);
+    z = (z ^ (z >> 27)).wrapping_mul(0x94D0_49BB_1331_11EB);
+    z ^ (z >> 31)
 }
 
-pub fn run(_cfg: &Cfg) -> Report {
-    let mut rep = Report::new();
-    rep.inconclusive("not-implemented");
+/// deterministic non-zero field element
+fn val(seed: u64, i: u64) -> u64 {
+    let v = sm64(seed, i) % P;
+    if v == 0 {
+        1
+    } else {
+        v
+    }
+}
+
+fn wordv(seed: u64, i: u64) -> W {
+    [val(seed, 4 * i), val(seed, 4 * i + 1), val(seed, 4 * i + 2), val(seed, 4 * i + 3)]
+}
+
+fn to_word(w: &W) -> Word {
+    [Felt::new(w[0]), Felt::new(w[1]), Felt::new(w[2]), Felt::new(w[3])]
+}
+
+fn to_digest(w: &W) -> RpoDigest {
+    RpoDigest::new(to_word(w))
+}
+
+fn from_word(w: &Word) -> W {
+    [w[0].as_int(), w[1].as_int(), w[2].as_int(), w[3].as_int()]
+}
+
+fn from_digest(d: &RpoDigest) -> W {
+    let w: Word = (*d).into();
+    from_word(&w)
+}
+
+/// pushes a word so that it is a proper stack word when the vector is read TOP FIRST
+fn push_word_top_first(v: &mut Vec<u64>, w: &W) {
+    v.extend_from_slice(&[w[3], w[2], w[1], w[0]]);
+}
+
+/// reads a word from a TOP-FIRST stack slice
+fn word_at(stack: &[u64], off: usize) -> W {
+    let g = |i: usize| stack.get(off + i).copied().unwrap_or(0);
+    [g(3), g(2), g(1), g(0)]
+}
+
+fn jw(w: &W) -> Value {
+    json!(w.iter().map(|x| x.to_string()).collect::<Vec<_>>())
+}
+
+fn ju(v: &Value, k: &str) -> Option<u64> {
+    let x = v.get(k)?;
+    x.as_u64().or_else(|| x.as_str().and_then(|s| s.parse().ok()))
+}
+
+fn jword(v: &Value) -> Option<W> {
+    let a = v.as_array()?;
+    if a.len() != 4 {
+        return None;
+    }
+    let mut w = [0u64; 4];
+    for (i, e) in a.iter().enumerate() {
+        w[i] = e.as_u64().or_else(|| e.as_str().and_then(|s| s.parse().ok()))?;
+    }
+    Some(w)
+}
+
+fn trim(v: &[u64]) -> &[u64] {
+    let mut n = v.len();
+    while n > 0 && v[n - 1] == 0 {
+        n -= 1;
+    }
+    &v[..n]
+}
+
+// EXECUTION CONTEXT (program cache, execution with an explicit Merkle store)
+// ================================================================================================
+
+pub enum Out {
+    Ok(Vec<u64>, Box<ExecutionTrace>),
+    Err(String, String),
+    Panic(PanicInfo),
+}
+
+impl Out {
+    fn class(&self) -> String {
+        match self {
+            Out::Ok(..) => "ok".into(),
+            Out::Err(k, _) => format!("err:{k}"),
+            Out::Panic(p) => format!("panic:{}", p.site()),
+        }
+    }
+}
+
+pub type Shared = std::sync::Arc<HashMap<String, Box<Program>>>;
+
+pub struct Ctx {
+    shared: Option<Shared>,
+    progs: HashMap<String, Option<Box<Program>>>,
+    monitored: BTreeSet<String>,
+    sampled: BTreeSet<String>,
+    pub sampling: bool,
+    pub rng: Rng8,
+    pub side_monitor: bool,
+}
+
+impl Ctx {
+    pub fn new(rng: Rng8) -> Self {
+        Ctx {
+            shared: None,
+            progs: HashMap::new(),
+            monitored: BTreeSet::new(),
+            sampled: BTreeSet::new(),
+            sampling: true,
+            rng,
+            side_monitor: true,
+        }
+    }
+
+    pub fn with_shared(mut self, shared: Shared) -> Self {
+        self.shared = Some(shared);
+        self
+    }
+
+    /// assembles each distinct program text once (per shard)
+    fn prog(&mut self, src: &str, rep: &mut Report) -> Option<Box<Program>> {
+        if let Some(p) = self.shared.as_ref().and_then(|s| s.get(src)) {
+            return Some(p.clone());
+        }
+        if !self.progs.contains_key(src) {
+            let mut c = Case::new(src.to_string());
+            c.stdlib = true;
+            let p = match c.assemble() {
+                AsmOutcome::Ok(p) => {
+                    rep.count("assembled_programs", "in-shard");
+                    Some(p)
+                }
+                AsmOutcome::Err(e) => {
+                    rep.inconclusive(format!("harness-program-did-not-assemble: {}", truncate(&e, 160)));
+                    None
+                }
+                AsmOutcome::Panic(p) => {
+                    rep.inconclusive(format!("harness-program-assembly-panicked: {}", p.site()));
+                    None
+                }
+            };
+            self.progs.insert(src.to_string(), p);
+        }
+        self.progs.get(src).and_then(|p| p.clone())
+    }
+
+    /// runs `case` (source already assembled into `prog`) with an optional explicit Merkle store
+    fn exec(&mut self, prog: &Program, case: &Case, store: Option<&MerkleStore>) -> Out {
+        let mut adv = case.advice_inputs();
+        if let Some(s) = store {
+            adv = adv.with_merkle_store(s.clone());
+        }
+        let host = QuietHost::new(DefaultHost::new(MemAdviceProvider::from(adv)));
+        match exec_host(prog, case.stack_inputs(), host, ExecutionOptions::default()) {
+            ExecOutcome::Ok(t) => {
+                let s = t.stack_outputs().stack().to_vec();
+                Out::Ok(s, t)
+            }
+            ExecOutcome::Err(e) => Out::Err(err_kind(&e), truncate(&format!("{e:?}"), 200)),
+            ExecOutcome::Panic(p) => Out::Panic(p),
+        }
+    }
+
+    /// keeps one sample per group (the report keeps the first six overall)
+    fn sample(&mut self, group: &str, rep: &mut Report, v: Value) {
+        if self.sampling && self.sampled.insert(group.to_string()) {
+            rep.sample(v);
+        }
+    }
+
+    /// pipes the first successful execution of each `kind` (per shard) through the C03 AIR monitor
+    fn side(&mut self, kind: &str, case: &Case, trace: &mut ExecutionTrace, rep: &mut Report) {
+        if !self.side_monitor || self.monitored.contains(kind) {
+            return;
+        }
+        self.monitored.insert(kind.to_string());
+        rep.count("air_side_monitor", kind);
+        let mut rng = self.rng.clone();
+        crate::props::c03::monitor_trace(case, trace, &mut rng, 1, 0, rep);
+    }
+}
+
+fn mk_case(src: &str, stack: Vec<u64>, advice: Vec<u64>) -> Case {
+    let mut c = Case::new(src.to_string());
+    c.stdlib = true;
+    c.stack = stack;
+    c.advice_stack = advice;
+    c
+}
+
+/// Reports an outcome that is not allowed to be a panic; returns true if it was a panic.
+fn no_panic(out: &Out, proc_: &str, class: &str, wit: &Value, rep: &mut Report) -> bool {
+    if let Out::Panic(p) = out {
+        rep.violation(
+            format!("{proc_}/panic/{class}/{}", p.site()),
+            format!("{proc_} ({class}) panicked: {} at {}", p.message, p.location),
+            wit.clone(),
+        );
+        true
+    } else {
+        false
+    }
+}
+
+// MEMORY SCAFFOLD: advice-driven init / read-back loops (one program text per procedure)
+// ================================================================================================
+
+/// advice section per word: 1, w0, w1, w2, w3, addr ; terminated by 0
+const INIT: &str = "adv_push.1 while.true padw adv_loadw adv_push.1 mem_storew dropw adv_push.1 end";
+/// advice section per word: 1, addr ; terminated by 0. Leaves the words on the stack.
+const READ: &str = "adv_push.1 while.true padw adv_push.1 mem_loadw adv_push.1 end";
+
+fn scaffold(uses: &str, body: &str) -> String {
+    format!("{uses}\nbegin\n  {INIT}\n  {body}\n  {READ}\nend")
+}
+
+fn init_section(adv: &mut Vec<u64>, mem: &BTreeMap<u64, W>) {
+    for (a, w) in mem {
+        adv.push(1);
+        adv.extend_from_slice(w);
+        adv.push(*a);
+    }
+    adv.push(0);
+}
+
+fn read_section(adv: &mut Vec<u64>, addrs: &[u64]) {
+    for a in addrs {
+        adv.push(1);
+        adv.push(*a);
+    }
+    adv.push(0);
+}
+
+/// splits a final stack into (words read back in `addrs` order, rest of the stack top-first)
+fn split_readback(stack: &[u64], n_addrs: usize) -> (Vec<W>, Vec<u64>) {
+    let mut words = vec![[0u64; 4]; n_addrs];
+    for j in 0..n_addrs {
+        words[n_addrs - 1 - j] = word_at(stack, 4 * j);
+    }
+    let rest = if stack.len() > 4 * n_addrs { stack[4 * n_addrs..].to_vec() } else { vec![] };
+    (words, rest)
+}
+
+fn sentinels(seed: u64, n: usize) -> Vec<u64> {
+    (0..n).map(|i| val(seed, 900_000 + i as u64)).collect()
+}
+
+/// window of valid addresses around [base, base+n) with one guard word on each side
+fn window(set: &mut BTreeSet<u64>, base: u64, n: u64) {
+    let lo = base.saturating_sub(1);
+    let hi = base + n; // inclusive guard
+    let mut a = lo;
+    while a <= hi {
+        if a < TWO32 {
+            set.insert(a);
+        }
+        a += 1;
+    }
+}
+
+/// harness self check: init followed by read-back is the identity
+fn scaffold_selfcheck(ctx: &mut Ctx, rep: &mut Report) {
+    let src = format!("begin\n  {INIT}\n  {READ}\nend");
+    let Some(prog) = ctx.prog(&src, rep) else { return };
+    let mut mem = BTreeMap::new();
+    for a in [0u64, 1, 77, TWO32 - 1] {
+        mem.insert(a, wordv(4242, a));
+    }
+    let addrs: Vec<u64> = vec![TWO32 - 1, 77, 5, 1, 0];
+    let mut adv = vec![];
+    init_section(&mut adv, &mem);
+    read_section(&mut adv, &addrs);
+    let sent = sentinels(1, 16);
+    let case = mk_case(&src, sent.clone(), adv);
+    match ctx.exec(&prog, &case, None) {
+        Out::Ok(stack, _) => {
+            let (words, rest) = split_readback(&stack, addrs.len());
+            let ok = addrs.iter().zip(&words).all(|(a, w)| mem.get(a).copied().unwrap_or([0; 4]) == *w) && rest == sent;
+            if !ok {
+                rep.inconclusive("harness-selfcheck: memory scaffold is not the identity");
+            }
+            rep.count("selfcheck", "scaffold-identity-ok");
+        }
+        o => rep.inconclusive(format!("harness-selfcheck: scaffold failed: {}", o.class())),
+    }
+}
+
+// (a) TRUNCATE_STACK
+// ================================================================================================
+
+const TRUNC_INPUTS: &str = "use.std::sys\nbegin\n  exec.sys::truncate_stack\nend";
+/// builds the depth with pushes driven by the advice stack: 1 v 1 v ... 0
+const TRUNC_PUSHES: &str =
+    "use.std::sys\nbegin\n  adv_push.1 while.true adv_push.1 adv_push.1 end\n  exec.sys::truncate_stack\nend";
+/// same, but called from inside a procedure that owns locals itself (non-trivial fmp); the caller's
+/// local must survive
+const TRUNC_NESTED: &str = "use.std::sys\nproc.wrap.3\n  push.7 loc_store.1\n  exec.sys::truncate_stack\n  loc_load.1 push.7 assert_eq\nend\nbegin\n  exec.wrap\nend";
+
+fn unique_vals(seed: u64, n: usize) -> Vec<u64> {
+    let mut seen = BTreeSet::new();
+    let mut out = vec![];
+    let mut i = 0u64;
+    while out.len() < n {
+        // a few boundary values mixed in, all distinct
+        let v = match i {
+            3 => 0,
+            9 => P - 1,
+            14 => TWO32,
+            _ => val(seed, i),
+        };
+        i += 1;
+        if seen.insert(v) {
+            out.push(v);
+        }
+    }
+    out
+}
+
+pub fn check_truncate(ctx: &mut Ctx, depth: usize, variant: &str, seed: u64, rep: &mut Report) {
+    let vals = unique_vals(seed, depth); // top first
+    let (src, stack, adv) = match variant {
+        "pushes" => {
+            // inputs: the deepest 16 (or fewer) elements; the rest pushed (deepest first)
+            let base = depth.min(16);
+            let stack = vals[depth - base..].to_vec();
+            let mut adv = vec![];
+            for i in (0..depth - base).rev() {
+                adv.push(1);
+                adv.push(vals[i]);
+            }
+            adv.push(0);
+            (TRUNC_PUSHES, stack, adv)
+        }
+        "nested" => (TRUNC_NESTED, vals.clone(), vec![]),
+        _ => (TRUNC_INPUTS, vals.clone(), vec![]),
+    };
+    let Some(prog) = ctx.prog(src, rep) else { return };
+    let case = mk_case(src, stack, adv);
+    let wit = json!({"kind": "truncate", "depth": depth, "variant": variant, "seed": seed.to_string(), "case": case.to_json()});
+    rep.eval(&format!("truncate_stack|{variant}|{depth}"));
+    rep.count("procedure", "sys::truncate_stack");
+    rep.count("truncate_depth", &format!("{depth:02}"));
+    rep.count("truncate_variant", variant);
+    let out = ctx.exec(&prog, &case, None);
+    rep.count("outcome", &format!("truncate_stack:{}", out.class()));
+    match out {
+        Out::Ok(stack, mut t) => {
+            if stack.len() != 16 {
+                rep.violation(
+                    format!("sys::truncate_stack/final-depth-not-16/{variant}"),
+                    format!("depth {depth}: final stack depth {} instead of 16", stack.len()),
+                    wit.clone(),
+                );
+            }
+            if stack.len() < 16 || stack[..16] != vals[..16] {
+                rep.violation(
+                    format!("sys::truncate_stack/top16-changed/{variant}"),
+                    format!("depth {depth}: top 16 = {:?}, expected {:?}", &stack[..stack.len().min(16)], &vals[..16]),
+                    wit.clone(),
+                );
+            }
+            if depth == 80 || depth == 17 {
+                ctx.side(&format!("truncate-{variant}-{depth}"), &case, &mut t, rep);
+            }
+            ctx.sample("truncate", rep, json!({"proc": "sys::truncate_stack", "depth": depth, "variant": variant, "final_depth": stack.len(), "top16": truncate(&format!("{:?}", &stack[..stack.len().min(16)]), 200)}));
+        }
+        Out::Err(k, e) => rep.violation(
+            format!("sys::truncate_stack/fails/{variant}/{k}"),
+            format!("depth {depth}: truncate_stack failed: {e}"),
+            wit,
+        ),
+        o @ Out::Panic(_) => {
+            no_panic(&o, "sys::truncate_stack", variant, &wit, rep);
+        }
+    }
+}
+
+// (b) MEMCOPY
+// ================================================================================================
+
+#[derive(Clone, Debug)]
+pub struct McParams {
+    pub n: u64,
+    pub src: u64,
+    pub dst: u64,
+    pub seed: u64,
+}
+
+fn size_class(n: u64) -> &'static str {
+    match n {
+        0 => "n0",
+        1 => "n1",
+        2..=4 => "n2-4",
+        5..=16 => "n5-16",
+        _ => "n17+",
+    }
+}
+
+fn addr_class(lo: u64, n: u64) -> &'static str {
+    if lo + n > TWO32 {
+        "crosses-2^32"
+    } else if lo + n == TWO32 {
+        "ends-at-2^32"
+    } else if lo + n + 64 >= TWO32 {
+        "near-2^32"
+    } else if lo == 0 {
+        "addr0"
+    } else {
+        "mid"
+    }
+}
+
+fn overlap_class(p: &McParams) -> &'static str {
+    if p.n == 0 {
+        "n0"
+    } else if p.src == p.dst {
+        "same"
+    } else if p.dst > p.src && p.dst < p.src + p.n {
+        "overlap-dst-above-src"
+    } else if p.src > p.dst && p.src < p.dst + p.n {
+        "overlap-dst-below-src"
+    } else if p.dst == p.src + p.n || p.src == p.dst + p.n {
+        "adjacent"
+    } else {
+        "disjoint"
+    }
+}
+
+fn memcopy_src() -> String {
+    scaffold("use.std::mem", "exec.mem::memcopy")
+}
+
+pub fn check_memcopy(ctx: &mut Ctx, p: &McParams, rep: &mut Report) {
+    let src_text = memcopy_src();
+    let Some(prog) = ctx.prog(&src_text, rep) else { return };
+    let mut set = BTreeSet::new();
+    window(&mut set, p.src, p.n);
+    window(&mut set, p.dst, p.n);
+    let mem: BTreeMap<u64, W> = set.iter().map(|a| (*a, wordv(p.seed, *a))).collect();
+    let addrs: Vec<u64> = set.iter().copied().collect();
+    let mut adv = vec![];
+    init_section(&mut adv, &mem);
+    read_section(&mut adv, &addrs);
+    let sent = sentinels(p.seed, 13);
+    let mut stack = vec![p.n, p.src, p.dst];
+    stack.extend_from_slice(&sent);
+    let case = mk_case(&src_text, stack, adv);
+    let ov = overlap_class(p);
+    let crossing = p.src + p.n > TWO32 || p.dst + p.n > TWO32;
+    let ac = if crossing {
+        "crosses-2^32"
+    } else {
+        let (a, b) = (addr_class(p.src, p.n), addr_class(p.dst, p.n));
+        if a != "mid" {
+            a
+        } else {
+            b
+        }
+    };
+    let wit = json!({"kind": "memcopy", "n": p.n, "src": p.src, "dst": p.dst, "seed": p.seed.to_string(), "case": case.to_json()});
+    rep.eval(&format!("memcopy|{}|{ov}|{ac}", size_class(p.n)));
+    rep.count("procedure", "mem::memcopy");
+    rep.count("memcopy_n", if p.n == 0 { "n=0" } else { "n>0" });
+    rep.count("memcopy_class", &format!("{}|{ov}|{ac}", size_class(p.n)));
+    let out = ctx.exec(&prog, &case, None);
+    rep.count("outcome", &format!("memcopy[{ov},{ac}]:{}", out.class()));
+    if no_panic(&out, "mem::memcopy", &format!("{ov}/{ac}"), &wit, rep) {
+        return;
+    }
+    if crossing {
+        // the copy would have to touch an address >= 2^32, which is not a memory address
+        if let Out::Ok(..) = out {
+            rep.violation(
+                "mem::memcopy/range-crossing-2^32-succeeds",
+                format!("memcopy n={} src={} dst={} touches addresses >= 2^32 but succeeded", p.n, p.src, p.dst),
+                wit,
+            );
+        }
+        return;
+    }
+    let overlapping = ov.starts_with("overlap");
+    match out {
+        Out::Ok(stack, mut t) => {
+            let (words, rest) = split_readback(&stack, addrs.len());
+            let got: BTreeMap<u64, W> = addrs.iter().copied().zip(words.iter().copied()).collect();
+            // model: simultaneous copy (dst[i] = old src[i])
+            let mut exp = mem.clone();
+            for i in 0..p.n {
+                exp.insert(p.dst + i, mem[&(p.src + i)]);
+            }
+            if overlapping {
+                // contract silent about overlap: only record what happened
+                let mut fwd = mem.clone();
+                for i in 0..p.n {
+                    let w = fwd[&(p.src + i)];
+                    fwd.insert(p.dst + i, w);
+                }
+                let sem = if got == exp {
+                    "memmove-like"
+                } else if got == fwd {
+                    "forward-word-copy"
+                } else {
+                    "other"
+                };
+                rep.count("memcopy_overlap_semantics", &format!("{ov}:{sem}"));
+            } else {
+                if got != exp {
+                    let bad = addrs.iter().find(|a| got[a] != exp[a]).copied().unwrap_or(0);
+                    let where_ = if bad >= p.dst && bad < p.dst + p.n { "destination-wrong" } else { "outside-destination-modified" };
+                    rep.violation(
+                        format!("mem::memcopy/{where_}/{ov}"),
+                        format!("memcopy n={} src={} dst={}: word at {bad} = {:?}, expected {:?}", p.n, p.src, p.dst, got[&bad], exp[&bad]),
+                        wit.clone(),
+                    );
+                }
+                if trim(&rest) != trim(&sent) {
+                    rep.violation(
+                        format!("mem::memcopy/stack-transition/{ov}"),
+                        format!("memcopy n={}: stack below the arguments not preserved: {:?}", p.n, rest),
+                        wit.clone(),
+                    );
+                }
+            }
+            if p.n > 0 {
+                ctx.side("memcopy", &case, &mut t, rep);
+            }
+            if p.n > 1 {
+                ctx.sample("memcopy", rep, json!({"proc": "mem::memcopy", "n": p.n, "src": p.src, "dst": p.dst, "class": ov, "address_class": ac}));
+            }
+        }
+        Out::Err(k, e) => {
+            if !overlapping {
+                rep.violation(
+                    format!("mem::memcopy/fails/{ov}/{k}"),
+                    format!("memcopy n={} src={} dst={} failed: {e}", p.n, p.src, p.dst),
+                    wit,
+                );
+            }
+        }
+        Out::Panic(_) => {}
+    }
+}
+
+pub fn gen_memcopy(rng: &mut Rng8, big: bool) -> McParams {
+    let n = match rng.gen_range(0..10) {
+        0..=1 => 0,
+        2 => 1,
+        3..=6 => rng.gen_range(2..9),
+        7..=8 => rng.gen_range(9..20),
+        _ => {
+            if big {
+                rng.gen_range(20..70)
+            } else {
+                rng.gen_range(17..26)
+            }
+        }
+    };
+    let seed = rng.gen::<u64>();
+    let base = match rng.gen_range(0..6) {
+        0 => 0,
+        1 => rng.gen_range(0..4),
+        2 => rng.gen_range(0..TWO32 / 2),
+        3 => TWO32 - 2 * n - rng.gen_range(0..4), // both ranges fit just below 2^32
+        _ => rng.gen_range(1..1u64 << 31),
+    };
+    let (src, dst) = match rng.gen_range(0..12) {
+        0 => (base, base),                                                     // same
+        1 | 2 if n > 1 => (base, base + rng.gen_range(1..n)),                  // dst above src
+        3 | 4 if n > 1 => (base + rng.gen_range(1..n), base),                  // dst below src
+        5 => (base, base + n),                                                 // adjacent
+        6 => (base + n, base),                                                 // adjacent
+        7 => (TWO32 - n, rng.gen_range(0..1u64 << 20)),                        // src ends exactly at 2^32
+        8 => (rng.gen_range(0..1u64 << 20), TWO32 - n),                        // dst ends exactly at 2^32
+        9 if n > 0 => {
+            // crossing 2^32 on one side
+            let c = TWO32 - rng.gen_range(0..n);
+            if rng.gen() {
+                (c.min(TWO32 - 1), rng.gen_range(0..1u64 << 20))
+            } else {
+                (rng.gen_range(0..1u64 << 20), c.min(TWO32 - 1))
+            }
+        }
+        _ => {
+            if rng.gen() {
+                (base, base + n + rng.gen_range(1..1000))
+            } else {
+                (base + n + rng.gen_range(1..1000), base)
+            }
+        }
+    };
+    McParams { n, src: src.min(TWO32 - 1), dst: dst.min(TWO32 - 1), seed }
+}
+
+// (b) PIPE_* PROCEDURES
+// ================================================================================================
+
+#[derive(Clone, Debug)]
+pub struct PipeParams {
+    /// "words" | "double" | "preimage-ok" | "preimage-bad-com" | "preimage-bad-data"
+    pub variant: String,
+    pub n: u64,
+    pub ptr: u64,
+    pub seed: u64,
+}
+
+fn hash_elems(d: &[u64]) -> W {
+    let f: Vec<Felt> = d.iter().map(|x| Felt::new(*x)).collect();
+    from_digest(&Rpo256::hash_elements(&f))
+}
+
+fn pipe_src(variant: &str) -> String {
+    let body = match variant {
+        "words" => "exec.mem::pipe_words_to_memory",
+        "double" => "exec.mem::pipe_double_words_to_memory",
+        _ => "exec.mem::pipe_preimage_to_memory",
+    };
+    scaffold("use.std::mem", body)
+}
+
+pub fn check_pipe(ctx: &mut Ctx, p: &PipeParams, rep: &mut Report) {
+    let procname = match p.variant.as_str() {
+        "words" => "mem::pipe_words_to_memory",
+        "double" => "mem::pipe_double_words_to_memory",
+        _ => "mem::pipe_preimage_to_memory",
+    };
+    let src_text = pipe_src(&p.variant);
+    let Some(prog) = ctx.prog(&src_text, rep) else { return };
+    let n = p.n;
+    let mut data: Vec<u64> = (0..4 * n).map(|i| val(p.seed, 5_000_000 + i)).collect();
+    let good_hash = hash_elems(&data);
+    let mut set = BTreeSet::new();
+    window(&mut set, p.ptr, n);
+    let mem: BTreeMap<u64, W> = set.iter().map(|a| (*a, wordv(p.seed, *a))).collect();
+    let addrs: Vec<u64> = set.iter().copied().collect();
+    let crossing = p.ptr + n > TWO32;
+
+    // stack inputs and expected outputs (top first, before the sentinels)
+    let mut stack = vec![];
+    let mut exp_out = vec![];
+    let n_sent;
+    let mut must_fail = false;
+    match p.variant.as_str() {
+        "words" => {
+            stack.extend_from_slice(&[n, p.ptr]);
+            push_word_top_first(&mut exp_out, &good_hash);
+            exp_out.push(p.ptr + n);
+            n_sent = 14;
+        }
+        "double" => {
+            // arbitrary hasher state [A (capacity), B, C]; model: overwrite the rate with each
+            // pair of words, then permute
+            let mut st: Vec<u64> = (0..12).map(|i| val(p.seed, 7_000_000 + i)).collect();
+            if p.seed % 3 == 0 {
+                st = vec![0; 12];
+            }
+            for i in 0..12 {
+                stack.push(st[11 - i]);
+            }
+            stack.extend_from_slice(&[p.ptr, p.ptr + n]);
+            let mut state = [Felt::new(0); 12];
+            for i in 0..12 {
+                state[i] = Felt::new(st[i]);
+            }
+            for pair in data.chunks(8) {
+                for (j, v) in pair.iter().enumerate() {
+                    state[4 + j] = Felt::new(*v);
+                }
+                Rpo256::apply_permutation(&mut state);
+            }
+            for i in 0..12 {
+                exp_out.push(state[11 - i].as_int());
+            }
+            exp_out.push(p.ptr + n);
+            n_sent = 6;
+        }
+        v => {
+            let mut com = good_hash;
+            if v == "preimage-bad-com" {
+                let i = (p.seed % 4) as usize;
+                com[i] = (com[i] + 1) % P;
+                must_fail = true;
+            }
+            if v == "preimage-bad-data" {
+                let i = (p.seed % (4 * n).max(1)) as usize;
+                if let Some(x) = data.get_mut(i) {
+                    *x = (*x + 1) % P;
+                } else {
+                    // n = 0: nothing to corrupt; corrupt the commitment instead
+                    com[0] = (com[0] + 1) % P;
+                }
+                must_fail = true;
+            }
+            stack.extend_from_slice(&[n, p.ptr]);
+            push_word_top_first(&mut stack, &com);
+            exp_out.push(p.ptr + n);
+            n_sent = 10;
+        }
+    }
+    let sent = sentinels(p.seed, n_sent);
+    stack.extend_from_slice(&sent);
+    let mut adv = vec![];
+    init_section(&mut adv, &mem);
+    adv.extend_from_slice(&data);
+    read_section(&mut adv, &addrs);
+    let case = mk_case(&src_text, stack, adv);
+    let parity = if n % 2 == 0 { "even" } else { "odd" };
+    let ac = addr_class(p.ptr, n);
+    let wit = json!({"kind": "pipe", "variant": p.variant, "n": n, "ptr": p.ptr, "seed": p.seed.to_string(), "case": case.to_json()});
+    rep.eval(&format!("{procname}|{}|{}|{parity}|{ac}", p.variant, size_class(n)));
+    rep.count("procedure", procname);
+    rep.count("pipe_class", &format!("{}|{}|{parity}|{ac}", p.variant, size_class(n)));
+    let out = ctx.exec(&prog, &case, None);
+    rep.count("outcome", &format!("{}[{ac}]:{}", p.variant, out.class()));
+    if no_panic(&out, procname, ac, &wit, rep) {
+        return;
+    }
+    if must_fail {
+        match out {
+            Out::Ok(..) => rep.violation(
+                format!("{procname}/wrong-preimage-accepted/{}", p.variant),
+                format!("pipe_preimage_to_memory n={n} accepted a preimage that does not hash to COM"),
+                wit,
+            ),
+            _ => rep.count("wrong_preimage_rejected", &p.variant),
+        }
+        return;
+    }
+    if crossing {
+        if let Out::Ok(..) = out {
+            rep.violation(
+                format!("{procname}/range-crossing-2^32-succeeds"),
+                format!("{procname} n={n} ptr={} writes to addresses >= 2^32 but succeeded", p.ptr),
+                wit,
+            );
+        }
+        return;
+    }
+    match out {
+        Out::Ok(stack, mut t) => {
+            let (words, rest) = split_readback(&stack, addrs.len());
+            let got: BTreeMap<u64, W> = addrs.iter().copied().zip(words.iter().copied()).collect();
+            let mut exp = mem.clone();
+            for k in 0..n {
+                let o = 4 * k as usize;
+                exp.insert(p.ptr + k, [data[o], data[o + 1], data[o + 2], data[o + 3]]);
+            }
+            if got != exp {
+                let bad = addrs.iter().find(|a| got[a] != exp[a]).copied().unwrap_or(0);
+                let where_ = if bad >= p.ptr && bad < p.ptr + n { "memory-wrong" } else { "outside-range-modified" };
+                rep.violation(
+                    format!("{procname}/{where_}/{parity}"),
+                    format!("{procname} n={n} ptr={}: word at {bad} = {:?}, expected {:?}", p.ptr, got[&bad], exp[&bad]),
+                    wit.clone(),
+                );
+            }
+            let no = exp_out.len();
+            let got_out = &rest[..no.min(rest.len())];
+            if got_out != &exp_out[..] {
+                let what = if p.variant == "preimage-ok" {
+                    "returned-pointer"
+                } else if got_out.len() == no && got_out[no - 1] != exp_out[no - 1] {
+                    "returned-pointer"
+                } else {
+                    "returned-hash"
+                };
+                rep.violation(
+                    format!("{procname}/{what}-mismatch/{parity}"),
+                    format!("{procname} n={n} ptr={}: outputs {:?}, expected {:?}", p.ptr, got_out, exp_out),
+                    wit.clone(),
+                );
+            }
+            let below = if rest.len() > no { &rest[no..] } else { &[][..] };
+            if trim(below) != trim(&sent) {
+                rep.violation(
+                    format!("{procname}/stack-transition/{parity}"),
+                    format!("{procname} n={n}: stack below the outputs not preserved: {:?}", below),
+                    wit.clone(),
+                );
+            }
+            ctx.side(&format!("pipe-{}-{parity}", p.variant), &case, &mut t, rep);
+            if n > 2 {
+                ctx.sample("pipe", rep, json!({"proc": procname, "n": n, "ptr": p.ptr, "hash_of_piped_words": jw(&good_hash), "returned": truncate(&format!("{:?}", got_out), 200)}));
+            }
+        }
+        Out::Err(k, e) => rep.violation(
+            format!("{procname}/fails/{ac}/{parity}"),
+            format!("{procname} n={n} ptr={} (all addresses < 2^32) failed with {k}: {e}", p.ptr),
+            wit,
+        ),
+        Out::Panic(_) => {}
+    }
+}
+
+pub fn gen_pipe(rng: &mut Rng8, big: bool) -> PipeParams {
+    let variant = match rng.gen_range(0..10) {
+        0..=3 => "words",
+        4..=5 => "double",
+        6..=7 => "preimage-ok",
+        8 => "preimage-bad-com",
+        _ => "preimage-bad-data",
+    };
+    let mut n: u64 = match rng.gen_range(0..8) {
+        0 => 0,
+        1 => 1,
+        2 => 2,
+        3..=5 => rng.gen_range(3..12),
+        _ => rng.gen_range(12..if big { 80 } else { 30 }),
+    };
+    if variant == "double" {
+        // documented precondition: positive and even
+        n = (n + n % 2).max(2);
+    }
+    let ptr = match rng.gen_range(0..8) {
+        0 => 0,
+        1 => rng.gen_range(0..3),
+        2 => TWO32 - n,                                        // last word written is 2^32-1
+        3 => (TWO32 - n).saturating_sub(rng.gen_range(1..5)),  // just below
+        4 if n > 1 => TWO32 - rng.gen_range(1..n), // crossing 2^32 (ptr itself is a valid address)
+        _ => rng.gen_range(1..1u64 << 31),
+    };
+    PipeParams { variant: variant.to_string(), n, ptr: ptr.min(TWO32 - 1), seed: rng.gen() }
+}
+
+// (c) SPARSE MERKLE TREE — lock-step against miden-crypto's `Smt`
+// ================================================================================================
+
+const SMT_SET: &str = "use.std::collections::smt\nbegin\n  exec.smt::set\nend";
+const SMT_GET: &str = "use.std::collections::smt\nbegin\n  exec.smt::get\nend";
+/// [V, K, R, ...] -> set -> get(K) under the new root, using the advice state left behind by `set`
+/// final stack: [V_now, R_new, V_old, ...]
+const SMT_SET_GET: &str = "use.std::collections::smt\nbegin\n  dupw.1 movdnw.3\n  exec.smt::set\n  movupw.2 movupw.2 swapw\n  exec.smt::get\nend";
+
+const EMPTY: W = [0; 4];
+
+fn smt_from(entries: &[(W, W)]) -> Option<Smt> {
+    Smt::with_entries(entries.iter().map(|(k, v)| (to_digest(k), to_word(v)))).ok()
+}
+
+fn smt_entries(smt: &Smt) -> Vec<(W, W)> {
+    smt.entries().map(|(k, v)| (from_digest(k), from_word(v))).collect()
+}
+
+fn smt_advice(smt: &Smt) -> (MerkleStore, Vec<(W, Vec<u64>)>) {
+    let store = MerkleStore::from(smt);
+    let map = smt
+        .leaves()
+        .map(|(_, leaf)| (from_digest(&leaf.hash()), leaf.to_elements().iter().map(|f| f.as_int()).collect()))
+        .collect();
+    (store, map)
+}
+
+fn leaf_state(smt: &Smt, key: &W) -> &'static str {
+    match smt.get_leaf(&to_digest(key)).num_entries() {
+        0 => "empty",
+        1 => "single",
+        _ => "multiple",
+    }
+}
+
+fn entries_json(e: &[(W, W)]) -> Value {
+    json!(e.iter().map(|(k, v)| json!({"k": jw(k), "v": jw(v)})).collect::<Vec<_>>())
+}
+
+fn smt_case(src: &str, words: &[&W], map: Vec<(W, Vec<u64>)>, sent: &[u64]) -> Case {
+    let mut stack = vec![];
+    for w in words {
+        push_word_top_first(&mut stack, w);
+    }
+    stack.extend_from_slice(sent);
+    let mut c = mk_case(src, stack, vec![]);
+    c.advice_map = map;
+    c
+}
+
+/// One `smt::set` step checked against the native tree; `smt` is advanced natively.
+pub fn check_smt_set(ctx: &mut Ctx, smt: &mut Smt, key: &W, value: &W, with_get: bool, rep: &mut Report) {
+    let Some(prog) = ctx.prog(SMT_SET, rep) else { return };
+    let entries = smt_entries(smt);
+    let before = leaf_state(smt, key);
+    let present = from_word(&smt.get_value(&to_digest(key))) != EMPTY;
+    let (store, map) = smt_advice(smt);
+    let root0 = from_digest(&smt.root());
+    let old = from_word(&smt.insert(to_digest(key), to_word(value)));
+    let after = leaf_state(smt, key);
+    let root1 = from_digest(&smt.root());
+    let kind = match (*value != EMPTY, present) {
+        (true, false) => "insert",
+        (true, true) => "update",
+        (false, true) => "remove",
+        (false, false) => "remove-absent",
+    };
+    let trans = format!("{before}-to-{after}");
+    let sent = sentinels(root0[0] ^ key[0], 4);
+    let case = smt_case(SMT_SET, &[value, key, &root0], map.clone(), &sent);
+    let wit = json!({"kind": "smt-step", "op": "set", "entries": entries_json(&entries), "key": jw(key), "value": jw(value), "case": case.to_json(),
+        "note": "Merkle store = MerkleStore::from(Smt::with_entries(entries)); advice map = leaf hash -> leaf elements"});
+    rep.eval(&format!("smt::set|{trans}|{kind}"));
+    rep.count("procedure", "smt::set");
+    rep.count("smt_leaf_transition", &trans);
+    rep.count("smt_set_kind", &format!("{trans}|{kind}"));
+    rep.count("smt_tree_size", &format!("{:02}", entries.len().min(40)));
+    let out = ctx.exec(&prog, &case, Some(&store));
+    rep.count("outcome", &format!("smt::set[{trans}|{kind}]:{}", out.class()));
+    if no_panic(&out, "smt::set", &trans, &wit, rep) {
+        return;
+    }
+    let mut exp = vec![];
+    push_word_top_first(&mut exp, &old);
+    push_word_top_first(&mut exp, &root1);
+    exp.extend_from_slice(&sent);
+    match out {
+        Out::Ok(stack, mut t) => {
+            let mut good = true;
+            if word_at(&stack, 0) != old {
+                good = false;
+                rep.violation(
+                    format!("smt::set/old-value-mismatch/{trans}/{kind}"),
+                    format!("smt::set returned old value {:?}, native Smt::insert returned {:?}", word_at(&stack, 0), old),
+                    wit.clone(),
+                );
+            }
+            if word_at(&stack, 4) != root1 {
+                good = false;
+                rep.violation(
+                    format!("smt::set/root-mismatch/{trans}/{kind}"),
+                    format!("smt::set returned root {:?}, native root {:?}", word_at(&stack, 4), root1),
+                    wit.clone(),
+                );
+            }
+            if good && trim(&stack) != trim(&exp) {
+                good = false;
+                rep.violation(
+                    format!("smt::set/stack-transition/{trans}"),
+                    format!("smt::set final stack {:?}, expected {:?}", stack, exp),
+                    wit.clone(),
+                );
+            }
+            ctx.side(&format!("smt-set-{trans}"), &case, &mut t, rep);
+            if entries.len() > 2 {
+                ctx.sample("smt-set", rep, json!({"proc": "smt::set", "leaf_transition": trans, "kind": kind, "tree_entries": entries.len(), "key": jw(key), "old_value": jw(&old), "new_root": jw(&root1)}));
+            }
+            if good && with_get {
+                check_smt_get_after_set(ctx, smt, &store, map, key, value, &root0, &old, &root1, &wit, rep);
+            }
+        }
+        Out::Err(k, e) => rep.violation(
+            format!("smt::set/fails/{trans}"),
+            format!("smt::set ({kind}, leaf {trans}) failed with {k} where native Smt::insert succeeds: {e}"),
+            wit,
+        ),
+        Out::Panic(_) => {}
+    }
+}
+
+#[allow(clippy::too_many_arguments)]
+fn check_smt_get_after_set(
+    ctx: &mut Ctx,
+    smt_after: &Smt,
+    store0: &MerkleStore,
+    map0: Vec<(W, Vec<u64>)>,
+    key: &W,
+    value: &W,
+    root0: &W,
+    old: &W,
+    root1: &W,
+    set_wit: &Value,
+    rep: &mut Report,
+) {
+    let Some(prog) = ctx.prog(SMT_SET_GET, rep) else { return };
+    let after = leaf_state(smt_after, key);
+    let presence = if *value != EMPTY { "present" } else { "absent" };
+    let sent = sentinels(root1[1], 4);
+    let case = smt_case(SMT_SET_GET, &[value, key, root0], map0, &sent);
+    let mut wit = set_wit.clone();
+    wit["op"] = json!("set+get");
+    wit["case"] = case.to_json();
+    rep.eval(&format!("smt::get-after-set|{after}|{presence}"));
+    rep.count("procedure", "smt::set+get");
+    let out = ctx.exec(&prog, &case, Some(store0));
+    rep.count("outcome", &format!("smt::set+get[{after}|{presence}]:{}", out.class()));
+    if no_panic(&out, "smt::get-after-set", after, &wit, rep) {
+        return;
+    }
+    let mut exp = vec![];
+    push_word_top_first(&mut exp, value);
+    push_word_top_first(&mut exp, root1);
+    push_word_top_first(&mut exp, old);
+    exp.extend_from_slice(&sent);
+    match out {
+        Out::Ok(stack, _) => {
+            if trim(&stack) != trim(&exp) {
+                rep.violation(
+                    format!("smt::get-after-set/value-mismatch/{after}/{presence}"),
+                    format!("get after set (advice left by set): stack {:?}, expected {:?}", stack, exp),
+                    wit,
+                );
+            }
+        }
+        Out::Err(k, e) => {
+            // attribute to plain `get` if a natively seeded get of the same key fails too
+            let mut probe_rep = Report::new();
+            let plain_ok = check_smt_get(ctx, smt_after, key, &mut probe_rep);
+            if plain_ok {
+                rep.violation(
+                    format!("smt::get-after-set/fails/{after}/{presence}"),
+                    format!("get under the root returned by set failed with {k} although a natively seeded get succeeds (advice not updated by set?): {e}"),
+                    wit,
+                );
+            } else {
+                rep.count("smt_get_after_set", "failure-attributed-to-plain-get");
+            }
+        }
+        Out::Panic(_) => {}
+    }
+}
+
+/// One `smt::get` checked against the native tree. Returns true if the VM agreed with the oracle.
+pub fn check_smt_get(ctx: &mut Ctx, smt: &Smt, key: &W, rep: &mut Report) -> bool {
+    let Some(prog) = ctx.prog(SMT_GET, rep) else { return false };
+    let entries = smt_entries(smt);
+    let state = leaf_state(smt, key);
+    let v = from_word(&smt.get_value(&to_digest(key)));
+    let presence = if v != EMPTY { "present" } else { "absent" };
+    let (store, map) = smt_advice(smt);
+    let root = from_digest(&smt.root());
+    let sent = sentinels(root[2] ^ key[1], 8);
+    let case = smt_case(SMT_GET, &[key, &root], map, &sent);
+    let wit = json!({"kind": "smt-step", "op": "get", "entries": entries_json(&entries), "key": jw(key), "case": case.to_json(),
+        "note": "Merkle store = MerkleStore::from(Smt::with_entries(entries)); advice map = leaf hash -> leaf elements"});
+    rep.eval(&format!("smt::get|{state}|{presence}"));
+    rep.count("procedure", "smt::get");
+    rep.count("smt_get_class", &format!("{state}|{presence}"));
+    let out = ctx.exec(&prog, &case, Some(&store));
+    rep.count("outcome", &format!("smt::get[{state}|{presence}]:{}", out.class()));
+    if no_panic(&out, "smt::get", state, &wit, rep) {
+        return false;
+    }
+    let mut exp = vec![];
+    push_word_top_first(&mut exp, &v);
+    push_word_top_first(&mut exp, &root);
+    exp.extend_from_slice(&sent);
+    match out {
+        Out::Ok(stack, mut t) => {
+            let ok = trim(&stack) == trim(&exp);
+            if word_at(&stack, 0) != v {
+                rep.violation(
+                    format!("smt::get/value-mismatch/{state}/{presence}"),
+                    format!("smt::get returned {:?}, native Smt::get_value {:?}", word_at(&stack, 0), v),
+                    wit,
+                );
+            } else if !ok {
+                rep.violation(
+                    format!("smt::get/stack-transition/{state}"),
+                    format!("smt::get final stack {:?}, expected {:?}", stack, exp),
+                    wit,
+                );
+            }
+            ctx.side(&format!("smt-get-{state}"), &case, &mut t, rep);
+            if ok && v != EMPTY {
+                ctx.sample("smt-get", rep, json!({"proc": "smt::get", "leaf": state, "tree_entries": entries.len(), "key": jw(key), "value": jw(&v)}));
+            }
+            ok
+        }
+        Out::Err(k, e) => {
+            rep.violation(
+                format!("smt::get/fails/{state}/{presence}"),
+                format!("smt::get (leaf {state}, key {presence}) failed with {k} where native Smt::get_value returns {:?}: {e}", v),
+                wit,
+            );
+            false
+        }
+        Out::Panic(_) => false,
+    }
+}
+
+/// documented failure: "Fails if the tree with the specified root does not exist in the VM's advice provider"
+pub fn check_smt_unknown_root(ctx: &mut Ctx, smt: &Smt, key: &W, value: &W, rep: &mut Report) {
+    let (store, map) = smt_advice(smt);
+    let mut root = from_digest(&smt.root());
+    let i = (key[0] % 4) as usize;
+    root[i] = (root[i] + 1) % P;
+    let sent = sentinels(root[0], 4);
+    for (name, src) in [("smt::get", SMT_GET), ("smt::set", SMT_SET)] {
+        let Some(prog) = ctx.prog(src, rep) else { return };
+        let case = if name == "smt::get" {
+            smt_case(src, &[key, &root], map.clone(), &sent)
+        } else {
+            smt_case(src, &[value, key, &root], map.clone(), &sent)
+        };
+        let wit = json!({"kind": "smt-unknown-root", "entries": entries_json(&smt_entries(smt)), "key": jw(key), "value": jw(value), "case": case.to_json()});
+        rep.eval(&format!("{name}|unknown-root"));
+        rep.count("procedure", &format!("{name}(unknown root)"));
+        let out = ctx.exec(&prog, &case, Some(&store));
+        rep.count("outcome", &format!("{name}[unknown-root]:{}", out.class()));
+        if no_panic(&out, name, "unknown-root", &wit, rep) {
+            continue;
+        }
+        match out {
+            Out::Ok(stack, _) => rep.violation(
+                format!("{name}/unknown-root-accepted"),
+                format!("{name} with a root that is not in the advice provider succeeded: {:?}", &stack[..8]),
+                wit,
+            ),
+            _ => rep.count("smt_unknown_root_rejected", name),
+        }
+    }
+}
+
+fn chain_src(k: usize) -> String {
+    let mut src = String::from("use.std::collections::smt\nbegin\n");
+    for i in 0..k {
+        src.push_str(&format!("  exec.smt::set push.{} mem_storew dropw\n", 1000 + i));
+        if i + 1 < k {
+            src.push_str("  movdnw.2\n");
+        }
+    }
+    src.push_str("  swapw exec.smt::get\n");
+    for i in 0..k {
+        src.push_str(&format!("  padw push.{} mem_loadw\n", 1000 + i));
+    }
+    src.push_str("end");
+    src
+}
+
+/// k sets and a final get in ONE program: the advice provider state is carried by the VM itself.
+pub fn check_smt_chain(ctx: &mut Ctx, entries: &[(W, W)], ops: &[(W, W)], getkey: &W, rep: &mut Report) {
+    let k = ops.len();
+    if k == 0 {
+        return;
+    }
+    let Some(mut smt) = smt_from(entries) else { return };
+    let src = chain_src(k);
+    let Some(prog) = ctx.prog(&src, rep) else { return };
+    let (store, map) = smt_advice(&smt);
+    let root0 = from_digest(&smt.root());
+    // stack: [V1, K1, R0, V2, K2, ..., Vk, Kk, Kget, sentinels]
+    let mut stack = vec![];
+    push_word_top_first(&mut stack, &ops[0].1);
+    push_word_top_first(&mut stack, &ops[0].0);
+    push_word_top_first(&mut stack, &root0);
+    for (kk, v) in &ops[1..] {
+        push_word_top_first(&mut stack, v);
+        push_word_top_first(&mut stack, kk);
+    }
+    push_word_top_first(&mut stack, getkey);
+    let sent = sentinels(root0[3], 4);
+    stack.extend_from_slice(&sent);
+    let mut case = mk_case(&src, stack, vec![]);
+    case.advice_map = map;
+    let mut olds = vec![];
+    let mut multi = false;
+    for (kk, v) in ops {
+        olds.push(from_word(&smt.insert(to_digest(kk), to_word(v))));
+        multi |= leaf_state(&smt, kk) == "multiple";
+    }
+    let rootk = from_digest(&smt.root());
+    let vget = from_word(&smt.get_value(&to_digest(getkey)));
+    let wit = json!({"kind": "smt-chain", "entries": entries_json(entries), "ops": entries_json(ops), "getkey": jw(getkey), "case": case.to_json()});
+    rep.eval(&format!("smt::chain|k={k}|multi={multi}"));
+    rep.count("procedure", "smt::chain(set*,get)");
+    rep.count("smt_chain_len", &k.to_string());
+    let out = ctx.exec(&prog, &case, Some(&store));
+    rep.count("outcome", &format!("smt::chain:{}", out.class()));
+    if no_panic(&out, "smt::set-chain", "chain", &wit, rep) {
+        return;
+    }
+    // expected: olds (last loaded on top), V_get, R_k, sentinels
+    let mut exp = vec![];
+    for o in olds.iter().rev() {
+        push_word_top_first(&mut exp, o);
+    }
+    push_word_top_first(&mut exp, &vget);
+    push_word_top_first(&mut exp, &rootk);
+    exp.extend_from_slice(&sent);
+    match out {
+        Out::Ok(stack, mut t) => {
+            if trim(&stack) != trim(&exp) {
+                rep.violation(
+                    "smt::set-chain/result-mismatch",
+                    format!("{k} chained sets + get: stack {:?}, expected (old values, value, root) {:?}", stack, exp),
+                    wit,
+                );
+            }
+            ctx.side("smt-chain", &case, &mut t, rep);
+        }
+        Out::Err(kd, e) => rep.violation(
+            "smt::set-chain/fails",
+            format!("{k} chained sets + get on distinct single-entry leaves failed with {kd}: {e}"),
+            wit,
+        ),
+        Out::Panic(_) => {}
+    }
+}
+
+/// key pool: few leaf indices (most significant element), several keys per leaf
+fn smt_pool(rng: &mut Rng8) -> Vec<W> {
+    const IDX: [u64; 8] = [0, 1, P - 1, TWO32 - 1, TWO32, 1 << 63, (1 << 63) - 1, 0xFFFF_FFFF_0000_0000];
+    let n_leaves = rng.gen_range(2..5);
+    let mut pool = vec![];
+    for _ in 0..n_leaves {
+        let idx = if rng.gen_range(0..3) == 0 { IDX[rng.gen_range(0..IDX.len())] } else { rng.gen_range(0..P) };
+        let per = rng.gen_range(1..4);
+        let base: W = [rng.gen_range(0..P), rng.gen_range(0..P), rng.gen_range(0..P), idx];
+        for j in 0..per {
+            let mut k = base;
+            match j {
+                0 => {}
+                1 => k[rng.gen_range(0..3)] = rng.gen_range(0..P), // differs in one lower element
+                _ => {
+                    k[0] = rng.gen_range(0..4);
+                    k[1] = rng.gen_range(0..P);
+                    k[2] = rng.gen_range(0..4);
+                }
+            }
+            if !pool.contains(&k) {
+                pool.push(k);
+            }
+        }
+    }
+    pool
+}
+
+fn rand_value(rng: &mut Rng8) -> W {
+    match rng.gen_range(0..8) {
+        0 => [0, 0, 0, rng.gen_range(1..P)], // almost empty
+        1 => [rng.gen_range(1..P), 0, 0, 0],
+        2 => [1, 1, 1, 1],
+        _ => [rng.gen_range(0..P), rng.gen_range(0..P), rng.gen_range(0..P), rng.gen_range(1..P)],
+    }
+}
+
+pub fn smt_sequence(ctx: &mut Ctx, steps: usize, rep: &mut Report) {
+    let mut rng = ctx.rng.clone();
+    let pool = smt_pool(&mut rng);
+    let mut smt = Smt::new();
+    // background entries in other leaves so that paths are not trivial
+    for _ in 0..rng.gen_range(0..6) {
+        let k: W = [rng.gen_range(0..P), rng.gen_range(0..P), rng.gen_range(0..P), rng.gen_range(0..P)];
+        if !pool.iter().any(|p| p[3] == k[3]) {
+            smt.insert(to_digest(&k), to_word(&rand_value(&mut rng)));
+        }
+    }
+    rep.count("smt_sequences", "started");
+    for _ in 0..steps {
+        let key = pool[rng.gen_range(0..pool.len())];
+        let present = from_word(&smt.get_value(&to_digest(&key))) != EMPTY;
+        let state = leaf_state(&smt, &key);
+        // removal is boosted on populated leaves so that multiple->single->empty happens
+        let remove_w = if state == "multiple" { 40 } else if present { 30 } else { 10 };
+        let r = rng.gen_range(0..100);
+        if r < 25 {
+            check_smt_get(ctx, &smt, &key, rep);
+        } else if r < 25 + remove_w {
+            check_smt_set(ctx, &mut smt, &key, &EMPTY, rng.gen_range(0..3) == 0, rep);
+        } else {
+            let v = rand_value(&mut rng);
+            check_smt_set(ctx, &mut smt, &key, &v, rng.gen_range(0..3) == 0, rep);
+        }
+    }
+    let key = pool[rng.gen_range(0..pool.len())];
+    check_smt_unknown_root(ctx, &smt, &key, &rand_value(&mut rng), rep);
+    // chained program on distinct leaves (supported by any implementation of the documented API)
+    let k = CHAIN_LENS[rng.gen_range(0..CHAIN_LENS.len())];
+    let entries = smt_entries(&smt);
+    let mut ops: Vec<(W, W)> = vec![];
+    let mut fresh: Vec<W> = vec![];
+    for i in 0..k {
+        let reuse = !ops.is_empty() && rng.gen_range(0..3) == 0;
+        let key = if reuse {
+            ops[rng.gen_range(0..ops.len())].0
+        } else {
+            let mut kx: W = [rng.gen_range(0..P), rng.gen_range(0..P), rng.gen_range(0..P), rng.gen_range(0..P)];
+            while entries.iter().any(|(e, _)| e[3] == kx[3]) || fresh.iter().any(|e| e[3] == kx[3]) {
+                kx[3] = rng.gen_range(0..P);
+            }
+            fresh.push(kx);
+            kx
+        };
+        let v = if reuse && i % 2 == 1 { EMPTY } else { rand_value(&mut rng) };
+        ops.push((key, v));
+    }
+    let getkey = ops[rng.gen_range(0..ops.len())].0;
+    check_smt_chain(ctx, &entries, &ops, &getkey, rep);
+    ctx.rng = rng;
+}
+
+// (c) MERKLE MOUNTAIN RANGE — lock-step against miden-crypto's `Mmr`
+// ================================================================================================
+
+fn mmr_leaf(seed: u64, i: u64) -> W {
+    wordv(seed ^ 0x4D4D_5200, i)
+}
+
+pub fn mmr_build(seed: u64, n: u64) -> Mmr {
+    let mut m = Mmr::new();
+    for i in 0..n {
+        m.add(to_digest(&mmr_leaf(seed, i)));
+    }
+    m
+}
+
+fn mmr_peaks(m: &Mmr) -> Vec<W> {
+    m.peaks(m.forest()).map(|p| p.peaks().iter().map(from_digest).collect()).unwrap_or_default()
+}
+
+fn mmr_hash(m: &Mmr) -> W {
+    m.peaks(m.forest()).map(|p| from_digest(&p.hash_peaks())).unwrap_or(EMPTY)
+}
+
+/// documented padding rule: at least 16 words, above that an even number of words
+fn mmr_msg_words(num_peaks: usize) -> usize {
+    let m = num_peaks.max(16);
+    m + m % 2
+}
+
+/// memory image of an MMR at `ptr`: forest word followed by the peaks
+fn mmr_image(mem: &mut BTreeMap<u64, W>, m: &Mmr, ptr: u64) {
+    mem.insert(ptr, [m.forest() as u64, 0, 0, 0]);
+    for (i, p) in mmr_peaks(m).iter().enumerate() {
+        mem.insert(ptr + 1 + i as u64, *p);
+    }
+}
+
+fn mmr_size_class(n: u64) -> String {
+    let peaks = n.count_ones();
+    let s = match n {
+        0 => "n=0",
+        1 => "n=1",
+        2..=15 => "n=2..15",
+        16..=255 => "n=16..255",
+        256..=65535 => "n=256..65535",
+        _ => "n>=65536",
+    };
+    format!("{s}|peaks{}", if peaks > 16 { ">16".to_string() } else if peaks == 16 { "=16".to_string() } else { "<16".to_string() })
+}
+
+#[derive(Clone, Debug)]
+pub struct MmrStep {
+    /// "add-pack" | "add-get" | "get" | "pack-unpack" | "unpack" | "unpack-bad"
+    pub op: String,
+    pub seed: u64,
+    pub n: u64,
+    pub ptr: u64,
+    pub pos: u64,
+}
+
+fn mmr_src(op: &str) -> String {
+    let body = match op {
+        "add-pack" => "exec.mmr::add exec.mmr::pack",
+        "add-get" => "exec.mmr::add exec.mmr::get",
+        "get" => "exec.mmr::get",
+        "pack-unpack" => "exec.mmr::pack dupw movup.8 movdn.4 exec.mmr::unpack",
+        _ => "exec.mmr::unpack",
+    };
+    scaffold("use.std::collections::mmr", body)
+}
+
+/// One MMR step on the native MMR `m` with `n` leaves (leaf i = mmr_leaf(seed, i)). For the add
+/// variants `m` is advanced. `store` = inner nodes of `m` (passed in because it is expensive for big MMRs).
+pub fn check_mmr_step(ctx: &mut Ctx, m: &mut Mmr, store: &MerkleStore, st: &MmrStep, rep: &mut Report) {
+    let n = m.forest() as u64;
+    let ptr = st.ptr;
+    let procname = match st.op.as_str() {
+        "add-pack" | "add-get" => "mmr::add",
+        "get" => "mmr::get",
+        "pack-unpack" => "mmr::pack",
+        _ => "mmr::unpack",
+    };
+    let src_text = mmr_src(&st.op);
+    let Some(prog) = ctx.prog(&src_text, rep) else { return };
+    let sent = sentinels(st.seed ^ n, 6);
+    let mut mem: BTreeMap<u64, W> = BTreeMap::new();
+    let mut stack: Vec<u64> = vec![];
+    let mut exp_out: Vec<u64> = vec![];
+    let mut exp_mem: BTreeMap<u64, W>;
+    let mut first_elem_only: BTreeSet<u64> = BTreeSet::new();
+    let mut map: Vec<(W, Vec<u64>)> = vec![];
+    let mut must_fail = false;
+    let mut no_contract = false;
+    let guard_lo = ptr.saturating_sub(1);
+    let old_peaks = mmr_peaks(m).len();
+    match st.op.as_str() {
+        "add-pack" | "add-get" => {
+            let el = mmr_leaf(st.seed, n);
+            mmr_image(&mut mem, m, ptr);
+            if ptr > 0 {
+                mem.insert(guard_lo, wordv(st.seed, 77));
+            }
+            let merges = (n.trailing_ones()) as usize;
+            rep.count("mmr_add_merges", &format!("{merges:02}"));
+            m.add(to_digest(&el));
+            push_word_top_first(&mut stack, &el);
+            stack.push(ptr);
+            exp_mem = mem.clone();
+            for i in 0..=old_peaks as u64 + 1 {
+                exp_mem.insert(ptr + 1 + i, EMPTY);
+            }
+            mmr_image(&mut exp_mem, m, ptr);
+            if st.op == "add-pack" {
+                stack.push(ptr);
+                push_word_top_first(&mut exp_out, &mmr_hash(m));
+            } else {
+                let pos = st.pos % (n + 1);
+                stack.extend_from_slice(&[pos, ptr]);
+                let leaf = m.get(pos as usize).map(|d| from_digest(&d)).unwrap_or(EMPTY);
+                push_word_top_first(&mut exp_out, &leaf);
+                rep.count("mmr_get_after_add", if pos == n { "new-leaf" } else { "older-leaf" });
+            }
+        }
+        "get" => {
+            mmr_image(&mut mem, m, ptr);
+            exp_mem = mem.clone();
+            stack.extend_from_slice(&[st.pos, ptr]);
+            match m.get(st.pos as usize) {
+                Ok(d) if st.pos < n => push_word_top_first(&mut exp_out, &from_digest(&d)),
+                _ => no_contract = true, // position outside the MMR: only "no panic"
+            }
+        }
+        "pack-unpack" => {
+            mmr_image(&mut mem, m, ptr);
+            // second region, pre-filled with junk, receives the unpacked copy
+            let ptr2 = st.pos;
+            let words = mmr_msg_words(old_peaks) as u64;
+            exp_mem = mem.clone();
+            if ptr2 > 0 {
+                mem.insert(ptr2 - 1, wordv(st.seed, 78));
+            }
+            for i in 1..=words + 1 {
+                mem.insert(ptr2 + i, wordv(st.seed, 100 + i));
+            }
+            for (a, w) in &mem {
+                exp_mem.entry(*a).or_insert(*w);
+            }
+            for i in 1..=words {
+                exp_mem.insert(ptr2 + i, EMPTY);
+            }
+            mmr_image(&mut exp_mem, m, ptr2);
+            first_elem_only.insert(ptr2);
+            stack.extend_from_slice(&[ptr, ptr2]);
+            push_word_top_first(&mut exp_out, &mmr_hash(m));
+        }
+        _ => {
+            // unpack from an advice map entry derived from the native peaks
+            let peaks = m.peaks(m.forest()).expect("peaks");
+            let mut data: Vec<u64> = vec![n, 0, 0, 0];
+            data.extend(peaks.flatten_and_pad_peaks().iter().map(|f| f.as_int()));
+            let hash = from_digest(&peaks.hash_peaks());
+            if st.op == "unpack-bad" {
+                let i = 4 + (st.pos as usize % (data.len() - 4));
+                data[i] = (data[i] + 1) % P;
+                must_fail = true;
+            }
+            map.push((hash, data));
+            let words = mmr_msg_words(old_peaks) as u64;
+            if ptr > 0 {
+                mem.insert(guard_lo, wordv(st.seed, 79));
+            }
+            for i in 1..=words + 1 {
+                mem.insert(ptr + i, wordv(st.seed, 200 + i));
+            }
+            exp_mem = mem.clone();
+            for i in 1..=words {
+                exp_mem.insert(ptr + i, EMPTY);
+            }
+            mmr_image(&mut exp_mem, m, ptr);
+            first_elem_only.insert(ptr);
+            push_word_top_first(&mut stack, &hash);
+            stack.push(ptr);
+        }
+    }
+    stack.extend_from_slice(&sent);
+    let addrs: Vec<u64> = exp_mem.keys().copied().filter(|a| *a < TWO32).collect();
+    let mut adv = vec![];
+    init_section(&mut adv, &mem);
+    read_section(&mut adv, &addrs);
+    let mut case = mk_case(&src_text, stack, adv);
+    case.advice_map = map;
+    let sc = mmr_size_class(n);
+    let wit = json!({"kind": "mmr-step", "op": st.op, "leaf_seed": st.seed.to_string(), "n": n, "ptr": ptr, "pos": st.pos, "case": case.to_json(),
+        "note": "leaf i = wordv(leaf_seed ^ 0x4D4D5200, i); Merkle store = Mmr::inner_nodes()"});
+    rep.eval(&format!("mmr|{}|{sc}", st.op));
+    rep.count("procedure", &format!("mmr::{}", st.op));
+    rep.count("mmr_size", &sc);
+    rep.count("mmr_num_leaves", &format!("{n:06}"));
+    let out = ctx.exec(&prog, &case, Some(store));
+    rep.count("outcome", &format!("mmr::{}{}:{}", st.op, if no_contract { "[pos-out-of-range]" } else { "" }, out.class()));
+    if no_panic(&out, procname, &st.op, &wit, rep) {
+        return;
+    }
+    if no_contract {
+        return;
+    }
+    if must_fail {
+        match out {
+            Out::Ok(..) => rep.violation(
+                "mmr::unpack/corrupted-peaks-accepted",
+                format!("mmr::unpack accepted advice data that does not hash to HASH (n={n})"),
+                wit,
+            ),
+            _ => rep.count("mmr_unpack_corrupted_rejected", "rejected"),
+        }
+        return;
+    }
+    match out {
+        Out::Ok(stack, mut t) => {
+            let (words, rest) = split_readback(&stack, addrs.len());
+            let got: BTreeMap<u64, W> = addrs.iter().copied().zip(words.iter().copied()).collect();
+            for a in &addrs {
+                let (g, e) = (got[a], exp_mem[a]);
+                let same = if first_elem_only.contains(a) { g[0] == e[0] } else { g == e };
+                if !same {
+                    let what = if *a == ptr || first_elem_only.contains(a) {
+                        "num-leaves-wrong"
+                    } else if *a > ptr && *a <= ptr + m.forest().count_ones() as u64 && st.op.starts_with("add") {
+                        "peaks-mismatch"
+                    } else {
+                        "memory-mismatch"
+                    };
+                    rep.violation(
+                        format!("mmr::{}/{what}", st.op),
+                        format!("{} on MMR with {n} leaves at ptr {ptr}: word at {a} = {:?}, expected {:?}", st.op, g, e),
+                        wit.clone(),
+                    );
+                    break;
+                }
+            }
+            let no = exp_out.len();
+            if rest.len() < no || rest[..no] != exp_out[..] {
+                let what = match st.op.as_str() {
+                    "add-pack" | "pack-unpack" => "hash-mismatch",
+                    _ => "leaf-mismatch",
+                };
+                rep.violation(
+                    format!("mmr::{}/{what}", st.op),
+                    format!("{} on MMR with {n} leaves (pos {}): returned {:?}, native {:?}", st.op, st.pos, &rest[..no.min(rest.len())], exp_out),
+                    wit.clone(),
+                );
+            } else if trim(&rest[no..]) != trim(&sent) {
+                rep.violation(
+                    format!("mmr::{}/stack-transition", st.op),
+                    format!("{}: stack below outputs {:?}, expected sentinels {:?}", st.op, &rest[no..], sent),
+                    wit.clone(),
+                );
+            }
+            ctx.side(&format!("mmr-{}", st.op), &case, &mut t, rep);
+            if n > 4 && st.op.starts_with("add") {
+                ctx.sample("mmr", rep, json!({"proc": format!("mmr::{}", st.op), "num_leaves_before": n, "merges": n.trailing_ones(), "ptr": ptr, "returned": truncate(&format!("{:?}", &rest[..no.min(rest.len())]), 120)}));
+            }
+        }
+        Out::Err(k, e) => rep.violation(
+            format!("mmr::{}/fails/{k}", st.op),
+            format!("{} on MMR with {n} leaves at ptr {ptr} (pos {}) failed: {e}", st.op, st.pos),
+            wit,
+        ),
+        Out::Panic(_) => {}
+    }
+}
+
+fn mmr_store(m: &Mmr) -> MerkleStore {
+    let mut s = MerkleStore::new();
+    s.extend(m.inner_nodes());
+    s
+}
+
+fn rand_ptr(rng: &mut Rng8) -> u64 {
+    match rng.gen_range(0..6) {
+        0 => rng.gen_range(1..10),
+        1 => TWO32 - rng.gen_range(60..5000),
+        2 => 0,
+        _ => rng.gen_range(10..1u64 << 31),
+    }
+}
+
+pub fn mmr_sequence(ctx: &mut Ctx, n0: u64, steps: usize, add_pct: u32, rep: &mut Report) {
+    let mut rng = ctx.rng.clone();
+    let seed: u64 = rng.gen();
+    let mut m = mmr_build(seed, n0);
+    let mut store = mmr_store(&m);
+    let mut stale = false;
+    rep.count("mmr_sequences", "started");
+    for step in 0..steps {
+        let n = m.forest() as u64;
+        let ptr = rand_ptr(&mut rng);
+        // sequences that rarely add still add once (two thirds in), so that the many-merge case is hit
+        let forced = add_pct < 20 && step == steps * 2 / 3;
+        let op = if rng.gen_range(0..100) < add_pct || forced {
+            if rng.gen_range(0..9) < 5 {
+                "add-pack"
+            } else {
+                "add-get"
+            }
+        } else {
+            ""
+        };
+        let r = rng.gen_range(45..100);
+        let op = if !op.is_empty() {
+            op
+        } else if r < 65 {
+            "get"
+        } else if r < 78 {
+            "pack-unpack"
+        } else if r < 92 {
+            "unpack"
+        } else {
+            "unpack-bad"
+        };
+        let pos = match op {
+            "get" => {
+                if n > 0 && rng.gen_range(0..8) != 0 {
+                    match rng.gen_range(0..4) {
+                        0 => n - 1,
+                        1 => 0,
+                        _ => rng.gen_range(0..n),
+                    }
+                } else {
+                    n + rng.gen_range(0..3) // outside
+                }
+            }
+            "add-get" => match rng.gen_range(0..3) {
+                0 => n,
+                _ => rng.gen_range(0..=n),
+            },
+            "pack-unpack" => {
+                // second region far away from the first one
+                let p2 = rand_ptr(&mut rng);
+                if p2.abs_diff(ptr) < 100 {
+                    (ptr + 1000) % (1 << 31)
+                } else {
+                    p2
+                }
+            }
+            _ => rng.gen(),
+        };
+        let st = MmrStep { op: op.to_string(), seed, n, ptr, pos };
+        if stale && (op == "get" || op == "add-get") {
+            // refresh the Merkle store from the native structure (only the ops that read it)
+            store = mmr_store(&m);
+            stale = false;
+        }
+        check_mmr_step(ctx, &mut m, &store, &st, rep);
+        stale |= op.starts_with("add");
+    }
+    ctx.rng = rng;
+}
+
+fn mmr_util_src(name: &str) -> String {
+    format!("use.std::collections::mmr\nbegin\n  exec.mmr::{name}\nend")
+}
+
+const MMR_UTILS: [&str; 5] =
+    ["u32unchecked_trailing_ones", "trailing_ones", "ilog2_checked", "num_leaves_to_num_peaks", "num_peaks_to_message_size"];
+const CHAIN_LENS: [usize; 3] = [2, 3, 5];
+
+/// Assembles every program text of this module exactly once (in parallel); shards share the result.
+pub fn preassemble(rep: &mut Report) -> Shared {
+    let mut texts: Vec<String> = vec![
+        format!("begin\n  {INIT}\n  {READ}\nend"),
+        TRUNC_INPUTS.into(),
+        TRUNC_PUSHES.into(),
+        TRUNC_NESTED.into(),
+        memcopy_src(),
+        pipe_src("words"),
+        pipe_src("double"),
+        pipe_src("preimage-ok"),
+        SMT_SET.into(),
+        SMT_GET.into(),
+        SMT_SET_GET.into(),
+    ];
+    texts.extend(CHAIN_LENS.iter().map(|k| chain_src(*k)));
+    texts.extend(["add-pack", "add-get", "get", "pack-unpack", "unpack"].iter().map(|o| mmr_src(o)));
+    texts.extend(MMR_UTILS.iter().map(|n| mmr_util_src(n)));
+    let progs = par_map(texts.len(), |i| {
+        let mut c = Case::new(texts[i].clone());
+        c.stdlib = true;
+        match c.assemble() {
+            AsmOutcome::Ok(p) => Ok(p),
+            AsmOutcome::Err(e) => Err(e),
+            AsmOutcome::Panic(p) => Err(format!("panic at {}", p.site())),
+        }
+    });
+    let mut map = HashMap::new();
+    for (t, p) in texts.into_iter().zip(progs) {
+        match p {
+            Ok(p) => {
+                rep.count("assembled_programs", "shared");
+                map.insert(t, p);
+            }
+            Err(e) => rep.inconclusive(format!("harness-program-did-not-assemble: {}", truncate(&e, 160))),
+        }
+    }
+    std::sync::Arc::new(map)
+}
+
+// small exported helpers of the mmr module, checked against their header comments
+pub fn check_mmr_util(ctx: &mut Ctx, name: &str, x: u64, rep: &mut Report) {
+    let src = mmr_util_src(name);
+    let Some(prog) = ctx.prog(&src, rep) else { return };
+    let sent = sentinels(x, 15);
+    let mut stack = vec![x];
+    stack.extend_from_slice(&sent);
+    let case = mk_case(&src, stack, vec![]);
+    let wit = json!({"kind": "mmr-util", "name": name, "x": x.to_string(), "case": case.to_json()});
+    // expected outputs (top first) or None = must fail
+    let exp: Option<Vec<u64>> = match name {
+        "u32unchecked_trailing_ones" => Some(vec![(x as u32).trailing_ones() as u64]),
+        "trailing_ones" => Some(vec![x.trailing_ones() as u64]),
+        "ilog2_checked" => {
+            if x == 0 {
+                None
+            } else {
+                let l = 31 - (x as u32).leading_zeros() as u64;
+                Some(vec![l, 1 << l])
+            }
+        }
+        "num_leaves_to_num_peaks" => Some(vec![x.count_ones() as u64]),
+        _ => {
+            let m = x.max(16);
+            Some(vec![m + m % 2])
+        }
+    };
+    rep.eval(&format!("mmr::{name}|bits{}", 64 - x.leading_zeros()));
+    rep.count("procedure", &format!("mmr::{name}"));
+    let out = ctx.exec(&prog, &case, None);
+    rep.count("outcome", &format!("mmr::{name}:{}", out.class()));
+    if no_panic(&out, &format!("mmr::{name}"), "util", &wit, rep) {
+        return;
+    }
+    match (out, exp) {
+        (Out::Ok(stack, _), Some(e)) => {
+            let mut full = e.clone();
+            full.extend_from_slice(&sent);
+            if trim(&stack) != trim(&full) {
+                rep.violation(
+                    format!("mmr::{name}/result-mismatch"),
+                    format!("mmr::{name}({x}) -> {:?}, expected {:?}", &stack[..e.len().min(stack.len())], e),
+                    wit,
+                );
+            }
+        }
+        (Out::Ok(stack, _), None) => rep.violation(
+            format!("mmr::{name}/documented-error-missing"),
+            format!("mmr::{name}({x}) is documented to error but returned {:?}", &stack[..2]),
+            wit,
+        ),
+        (Out::Err(k, e), Some(_)) => rep.violation(
+            format!("mmr::{name}/fails/{k}"),
+            format!("mmr::{name}({x}) failed: {e}"),
+            wit,
+        ),
+        _ => {}
+    }
+}
+
+pub fn mmr_utils(ctx: &mut Ctx, count: usize, rep: &mut Report) {
+    let mut rng = ctx.rng.clone();
+    for _ in 0..count {
+        let u32v = match rng.gen_range(0..4) {
+            0 => (1u64 << rng.gen_range(0..33)) - 1,
+            1 => 1u64 << rng.gen_range(0..32),
+            2 => ((1u64 << rng.gen_range(0..33)) - 1) & !(1u64 << rng.gen_range(0..32)),
+            _ => rng.gen::<u32>() as u64,
+        } & 0xFFFF_FFFF;
+        let u64v = match rng.gen_range(0..4) {
+            0 => ((1u128 << rng.gen_range(0..64)) - 1) as u64,
+            1 => 1u64 << rng.gen_range(0..63),
+            2 => u32v | (rng.gen::<u32>() as u64) << 32,
+            _ => rng.gen::<u64>(),
+        } % P;
+        check_mmr_util(ctx, "u32unchecked_trailing_ones", u32v, rep);
+        check_mmr_util(ctx, "trailing_ones", u64v, rep);
+        check_mmr_util(ctx, "ilog2_checked", if rng.gen_range(0..30) == 0 { 0 } else { u32v }, rep);
+        check_mmr_util(ctx, "num_leaves_to_num_peaks", if rng.gen() { u32v } else { u64v }, rep);
+        check_mmr_util(ctx, "num_peaks_to_message_size", rng.gen_range(0..80), rep);
+    }
+    ctx.rng = rng;
+}
+
+// DRIVER
+// ================================================================================================
+
+pub fn meta() -> Meta {
+    Meta {
+        level: "exploration",
+        rule: "each evaluation = one execution of a program calling one stdlib procedure (or a short chain of them) on generated inputs, whose final stack and read-back memory window (range + guard words) were compared with a model: truncate_stack for every depth 16..=80 (3 ways of building the depth); memcopy / pipe_words / pipe_double_words / pipe_preimage vs a word-addressed memory model and miden-crypto's Rpo256 (overlapping memcopy ranges: contract silent, only 'no panic'; ranges crossing 2^32 must fail; wrong preimages must fail); smt::set/get and mmr::add/get/pack/unpack/helpers as random operation sequences in lock-step with miden-crypto's Smt / Mmr, the advice inputs (Merkle store, advice map, memory image) being rebuilt from the native structure before every step, plus chained programs where the VM carries the advice state itself; distinct = distinct (procedure, size class, overlap/address class | SMT leaf-state transition and op kind | MMR size class)".into(),
+        assumptions: vec![
+            "miden-crypto's Smt, Mmr, MmrPeaks and Rpo256 are the oracle for the collections and hashes".into(),
+            "contracts are the header comments of stdlib/asm/{sys,mem,collections/smt,collections/mmr}.masm and docs/src/user_docs/stdlib/*.md; where they are silent (overlapping memcopy, mmr::get outside the MMR) only absence of panics is required".into(),
+            "memory is observed through mem_loadw read-back appended to the program (self-checked to be the identity)".into(),
+            "sequences and inputs are sampled, not enumerated (except truncate_stack depths 16..=80)".into(),
+        ],
+    }
+}
+
+const SHARDS: usize = 32;
+
+pub fn run(cfg: &Cfg) -> Report {
+    let reps = cfg.n(3, 30);
+    let n_mem = cfg.n(1000, 12000);
+    let n_pipe = cfg.n(1000, 12000);
+    let n_smt_seq = cfg.n(32, 400);
+    let smt_steps = 40;
+    let n_mmr_seq = cfg.n(28, 330);
+    let n_util = cfg.n(40, 400);
+    let thorough = cfg.tier == crate::report::Tier::Thorough;
+    // MMRs with more than 16 peaks are expensive natively (2^17 hashes): separate jobs, started first
+    let big: Vec<u64> = if thorough {
+        vec![(1 << 17) - 1, (1 << 17) - 3, (1 << 18) - 1, (1 << 18) - 1 - (1 << 9), (1 << 17) + (1 << 16) - 2, (1 << 17) + 0xFFFF]
+    } else {
+        vec![(1 << 17) - 1, (1 << 17) - 3]
+    };
+    let nbig = big.len();
+    let mut pre = Report::new();
+    let shared = preassemble(&mut pre);
+    let mut reports = par_map(nbig + SHARDS, |job| {
+        let mut rep = Report::new();
+        let t_job = std::time::Instant::now();
+        if job < nbig {
+            let mut ctx = Ctx::new(rng_for(cfg.seed, "C18", 1000 + job as u64)).with_shared(shared.clone());
+            ctx.side_monitor = false;
+            ctx.sampling = false;
+            let add_pct = if big[job].count_ones() > 16 { 10 } else { 35 };
+            mmr_sequence(&mut ctx, big[job], if thorough { 24 } else { 10 }, add_pct, &mut rep);
+            rep.count_n("cpu_ms_by_section", "mmr-big", t_job.elapsed().as_millis() as u64);
+            return rep;
+        }
+        let sh = job - nbig;
+        let mut ctx = Ctx::new(rng_for(cfg.seed, "C18", sh as u64)).with_shared(shared.clone());
+        // the AIR side monitor only needs a small sample: 4 of the 32 shards
+        ctx.side_monitor = sh % 8 == 0;
+        let mut t0 = std::time::Instant::now();
+        let mut lap = |rep: &mut Report, what: &str| {
+            rep.count_n("cpu_ms_by_section", what, t0.elapsed().as_millis() as u64);
+            t0 = std::time::Instant::now();
+        };
+        if sh == 0 {
+            scaffold_selfcheck(&mut ctx, &mut rep);
+        }
+        // (a) every depth 16..=80 is covered in every run: depth d belongs to shard (d-16) % SHARDS
+        for d in 16..=80usize {
+            if (d - 16) % SHARDS != sh {
+                continue;
+            }
+            for r in 0..reps {
+                for variant in ["inputs", "pushes", "nested"] {
+                    let seed = ctx.rng.gen::<u64>() ^ r as u64;
+                    check_truncate(&mut ctx, d, variant, seed, &mut rep);
+                }
+            }
+        }
+        lap(&mut rep, "truncate_stack");
+        // (b)
+        for i in 0..n_mem {
+            let mut rng = ctx.rng.clone();
+            let mut p = gen_memcopy(&mut rng, thorough);
+            if i == 0 {
+                p.n = 0;
+            }
+            ctx.rng = rng;
+            check_memcopy(&mut ctx, &p, &mut rep);
+        }
+        lap(&mut rep, "memcopy");
+        for _ in 0..n_pipe {
+            let mut rng = ctx.rng.clone();
+            let p = gen_pipe(&mut rng, thorough);
+            ctx.rng = rng;
+            check_pipe(&mut ctx, &p, &mut rep);
+        }
+        lap(&mut rep, "pipe");
+        // (c) SMT
+        for _ in 0..n_smt_seq {
+            smt_sequence(&mut ctx, smt_steps, &mut rep);
+        }
+        lap(&mut rep, "smt");
+        // (c) MMR
+        for i in 0..n_mmr_seq {
+            let n0 = match (sh + i) % 8 {
+                0 => 0,
+                1 => (1u64 << ctx.rng.gen_range(1..9)) - 1, // next add merges everything
+                2 => ctx.rng.gen_range(0..40),
+                3 => ctx.rng.gen_range(40..600),
+                4 => (1u64 << ctx.rng.gen_range(2..10)) - ctx.rng.gen_range(1..4),
+                5 => ctx.rng.gen_range(0..8),
+                6 => ctx.rng.gen_range(0..2000),
+                _ => {
+                    if i % 16 == 7 {
+                        0xFFFF - ctx.rng.gen_range(0..3) // 16 / 15 peaks
+                    } else {
+                        ctx.rng.gen_range(0..200)
+                    }
+                }
+            };
+            mmr_sequence(&mut ctx, n0, 14, 45, &mut rep);
+        }
+        lap(&mut rep, "mmr");
+        mmr_utils(&mut ctx, n_util, &mut rep);
+        lap(&mut rep, "mmr-utils");
+        rep
+    });
+    reports.push(pre);
+    let mut rep = merge_all(reports);
+    floors(&mut rep);
     rep
 }
 
-pub fn replay(_v: &serde_json::Value, _rep: &mut Report) {}
+fn floors(rep: &mut Report) {
+    for d in 16..=80 {
+        rep.floor(rep.get_count("truncate_depth", &format!("{d:02}")) >= 3, &format!("truncate-depth-{d}"));
+    }
+    rep.floor(rep.get_count("memcopy_n", "n=0") >= 10, "memcopy-n=0");
+    rep.floor(rep.get_count("memcopy_n", "n>0") >= 100, "memcopy-n>0");
+    let has = |rep: &Report, hist: &str, frag: &str| rep.hist.get(hist).map(|h| h.iter().any(|(k, v)| k.contains(frag) && *v > 0)).unwrap_or(false);
+    for c in ["overlap-dst-above-src", "overlap-dst-below-src", "same", "adjacent", "disjoint", "ends-at-2^32", "crosses-2^32", "addr0"] {
+        rep.floor(has(rep, "memcopy_class", c), &format!("memcopy-class-{c}"));
+    }
+    for c in ["words|", "double|", "preimage-ok|", "|odd|", "|even|", "ends-at-2^32", "crosses-2^32", "|n0|"] {
+        rep.floor(has(rep, "pipe_class", c), &format!("pipe-class-{c}"));
+    }
+    rep.floor(rep.get_count("wrong_preimage_rejected", "preimage-bad-com") >= 5, "wrong-commitment-rejected-5x");
+    rep.floor(rep.get_count("wrong_preimage_rejected", "preimage-bad-data") >= 5, "wrong-preimage-data-rejected-5x");
+    for t in [
+        "empty-to-single",
+        "single-to-multiple",
+        "multiple-to-single",
+        "single-to-empty",
+        "single-to-single",
+        "multiple-to-multiple",
+        "empty-to-empty",
+    ] {
+        rep.floor(rep.get_count("smt_leaf_transition", t) >= 3, &format!("smt-transition-{t}"));
+    }
+    for c in ["empty|absent", "single|present", "single|absent", "multiple|present", "multiple|absent"] {
+        rep.floor(rep.get_count("smt_get_class", c) >= 1, &format!("smt-get-{c}"));
+    }
+    rep.floor(rep.hist_len("smt_chain_len") >= 2, "smt-chains");
+    rep.floor(rep.get_count("smt_unknown_root_rejected", "smt::get") >= 3, "smt-get-unknown-root-rejected");
+    rep.floor(rep.get_count("smt_unknown_root_rejected", "smt::set") >= 3, "smt-set-unknown-root-rejected");
+    for m in 0..=4 {
+        rep.floor(rep.get_count("mmr_add_merges", &format!("{m:02}")) >= 1, &format!("mmr-add-{m}-merges"));
+    }
+    rep.floor(rep.get_count("mmr_add_merges", "17") >= 1, "mmr-add-17-merges");
+    let many: u64 = rep.hist.get("mmr_size").map(|h| h.iter().filter(|(k, _)| k.contains("peaks>16")).map(|(_, v)| *v).sum()).unwrap_or(0);
+    rep.floor(many >= 5, "mmr-more-than-16-peaks-5x");
+    rep.floor(has(rep, "mmr_size", "n=0"), "mmr-empty");
+    for p in ["mmr::add-pack", "mmr::add-get", "mmr::get", "mmr::pack-unpack", "mmr::unpack", "mmr::num_leaves_to_num_peaks", "mmr::trailing_ones", "mmr::ilog2_checked"] {
+        rep.floor(rep.get_count("procedure", p) >= 5, &format!("procedure-{p}"));
+    }
+    rep.floor(rep.get_count("mmr_unpack_corrupted_rejected", "rejected") >= 3, "mmr-unpack-corrupted-rejected");
+    rep.floor(rep.hist_len("air_side_monitor") >= 8, "air-side-monitor-kinds");
+}
+
+pub fn replay(v: &Value, rep: &mut Report) {
+    let mut ctx = Ctx::new(rng_for(0, "C18-replay", 0));
+    ctx.side_monitor = false;
+    let seed = |k: &str| ju(v, k).unwrap_or(0);
+    let entries = |k: &str| -> Vec<(W, W)> {
+        v.get(k)
+            .and_then(|e| e.as_array())
+            .map(|a| a.iter().filter_map(|e| Some((jword(e.get("k")?)?, jword(e.get("v")?)?))).collect())
+            .unwrap_or_default()
+    };
+    match v.get("kind").and_then(|k| k.as_str()).unwrap_or("") {
+        "truncate" => {
+            let variant = v.get("variant").and_then(|s| s.as_str()).unwrap_or("inputs").to_string();
+            check_truncate(&mut ctx, seed("depth").clamp(16, 4096) as usize, &variant, seed("seed"), rep);
+        }
+        "memcopy" => {
+            let p = McParams { n: seed("n"), src: seed("src"), dst: seed("dst"), seed: seed("seed") };
+            check_memcopy(&mut ctx, &p, rep);
+        }
+        "pipe" => {
+            let p = PipeParams {
+                variant: v.get("variant").and_then(|s| s.as_str()).unwrap_or("words").to_string(),
+                n: seed("n"),
+                ptr: seed("ptr"),
+                seed: seed("seed"),
+            };
+            check_pipe(&mut ctx, &p, rep);
+        }
+        "smt-step" => {
+            let Some(mut smt) = smt_from(&entries("entries")) else { return };
+            let Some(key) = v.get("key").and_then(jword) else { return };
+            match v.get("op").and_then(|s| s.as_str()).unwrap_or("") {
+                "get" => {
+                    check_smt_get(&mut ctx, &smt, &key, rep);
+                }
+                op => {
+                    let value = v.get("value").and_then(jword).unwrap_or(EMPTY);
+                    check_smt_set(&mut ctx, &mut smt, &key, &value, op == "set+get", rep);
+                }
+            }
+        }
+        "smt-unknown-root" => {
+            let Some(smt) = smt_from(&entries("entries")) else { return };
+            let Some(key) = v.get("key").and_then(jword) else { return };
+            let value = v.get("value").and_then(jword).unwrap_or(EMPTY);
+            check_smt_unknown_root(&mut ctx, &smt, &key, &value, rep);
+        }
+        "smt-chain" => {
+            let Some(getkey) = v.get("getkey").and_then(jword) else { return };
+            check_smt_chain(&mut ctx, &entries("entries"), &entries("ops"), &getkey, rep);
+        }
+        "mmr-step" => {
+            let st = MmrStep {
+                op: v.get("op").and_then(|s| s.as_str()).unwrap_or("get").to_string(),
+                seed: seed("leaf_seed"),
+                n: seed("n"),
+                ptr: seed("ptr"),
+                pos: seed("pos"),
+            };
+            let mut m = mmr_build(st.seed, st.n);
+            let store = mmr_store(&m);
+            check_mmr_step(&mut ctx, &mut m, &store, &st, rep);
+        }
+        "mmr-util" => {
+            let name = v.get("name").and_then(|s| s.as_str()).unwrap_or("trailing_ones").to_string();
+            check_mmr_util(&mut ctx, &name, seed("x"), rep);
+        }
+        _ => {
+            // witness produced by the AIR side monitor: a plain case
+            if let Some(case) = v.get("case").and_then(Case::from_json) {
+                crate::props::c03::replay(&json!({"case": case.to_json()}), rep);
+            }
+        }
+    }
+}
